@@ -30,7 +30,7 @@ META = {
                      "unwrap/expect/index/slice/copy_from_slice calls), allocation or loop bound in the decoders without a "
                      "dominating test, and that length-scoped readers test the visible end before advancing. "
                      "Over-approximates taint; does not decide stack depth or time.", ref="3/T1, 5/C04"),
-    "C05": dict(tech="static analysis: dataflow facts on the extension-addition reader/writer (MIR value origins), constant-offset mirror of the transmitted addition count",
+    "C05": dict(tech="static analysis: dataflow facts on the extension-addition reader/writer (MIR value origins), constant-offset mirror of the transmitted addition count, no-error-after-content and unaltered-index rules of the open-type / index readers",
                 text="Decides the dataflow facts cross-version decoding needs: the transmitted addition count bounds the "
                      "presence range and is retained, open-type skip uses the position captured before the content, both "
                      "optional wrappers wrap additions as open types. Not the decoded values for schema pairs.", ref="5/C05"),
@@ -59,28 +59,28 @@ META = {
     "C12": dict(tech="static analysis: lookup-provenance path rule, cast census, normalisation-twin table, Option-key equality guarded by is_some, name-match-is-an-alternative path rule of the module selection, normaliser and resolver field provenance over MIR",
                 text="Decides that value-reference resolution can only copy the looked-up literal or fail, uses no lossy cast, "
                      "and that literal-sensitive parse-time normalisation has a post-resolve twin.", ref="5/C12"),
-    "C13": dict(tech="static analysis: event-before-event path rules on the tokenizer CFG (flush before separator events, consume only what was peeked, delimiter consumed where the nesting level changes)",
+    "C13": dict(tech="static analysis: event-before-event path rules on the tokenizer CFG (flush before separator events, consume only what was peeked, delimiter consumed where the nesting level changes), per-character-only access to the text",
                 text="Decides that every separator event flushes the pending token before the next append and that token "
                      "locations are built from the same line/column expressions.", ref="5/C13"),
     "C14": dict(tech="static analysis: census and discharge of panic-capable sites reachable from the front-end entry points; recursion-descends rule on the call graph",
                 text="Decides that no panic-capable construct is reachable from tokenizer/parser/resolver/converters except "
                      "reviewed ones and that recursion descends structurally or consumes input.", ref="5/C14"),
-    "C15": dict(tech="static analysis: guard-constant/variant/cast table of the integer cascade, bound provenance and fallbacks of absent bounds, edge-cut reachability of the unsigned choice (MIR)",
+    "C15": dict(tech="static analysis: guard-constant/variant/cast table of the integer cascade, bound provenance and fallbacks of absent bounds, edge-cut reachability of the unsigned choice, extensible guard at every narrowing call (MIR)",
                 text="Decides table consistency of the integer-type cascade (guard constant, constructed variant, cast width agree "
                      "and ascend; extensible -> 64 bit) and provenance of min/max. Not narrowest-type for all pairs.", ref="5/C15"),
     "C16": dict(tech="static analysis: enum declaration order + derived Ord, sort-key types, who-sorts / no-keyed-order rule, X.680 universal tag table",
                 text="Decides the ordering mechanism for SET components and tag assignment tables.", ref="5/C16"),
-    "C17": dict(tech="static analysis: counter-advance path rule, wire-type and width-cascade sibling agreement, narrow-before-arithmetic rule of the 32-bit decoders, recursion of the ProtobufEq wrappers (config with feature protobuf)",
+    "C17": dict(tech="static analysis: counter-advance path rule, wire-type and width-cascade sibling agreement, narrow-before-arithmetic rule of the 32-bit decoders, recursion of the ProtobufEq wrappers, varint length of reader vs writer, unconditional tag of enclosed content (config with feature protobuf)",
                 text="Decides field-counter discipline, wire-type and width agreement between protobuf writer and reader, and "
                      "back-end neutrality. Compiles a configuration the pinned test baseline never builds.", ref="5/C17"),
     "C18": dict(tech="static analysis: agreement of two independent RustType->wire-type chains, field numbering, writer width cascade = model cascade",
                 text="Decides that the runtime writer and the .proto generator agree on wire type and field number per Rust type.",
                 ref="5/C18"),
-    "C19": dict(tech="static analysis: cfg-region neutrality (syn cfg spans x MIR of both configurations)",
+    "C19": dict(tech="static analysis: cfg-region neutrality (syn cfg spans x MIR of both configurations), panic-capable sites and state access of feature-only code in the MIR of the feature build",
                 text="Decides the property up to listed assumptions: code gated on descriptive-deserialize-errors contains no "
                      "control transfer, writes only gated state, binds nothing ungated code reads, and the ungated skeleton is "
                      "identical in both configurations.", ref="3/T9, 5/C19"),
-    "C20": dict(tech="static analysis: inverse-table, boundary and skeleton agreement of DER writer/reader; bit provenance of the identifier octet",
+    "C20": dict(tech="static analysis: inverse-table, boundary and skeleton agreement of DER writer/reader; bit provenance of the identifier octet; absence of PER-only constants in the ENUMERATED codec",
                 text="Decides class-bit table inversion, length-form boundary agreement and skeleton symmetry of the implemented DER "
                      "primitives.", ref="5/C20"),
 }
